@@ -26,10 +26,12 @@ def configs(tier, seed):
     if tier == 'quick':
         return [heap_config('pre-ops-len4', {'a', 'ab', 'empty', 'alt'},
                             {'concat', 'add', 'either', 'optional', 'exactly', 'capture', 'group', 'compile', 'match'}, 4, 4),
+                heap_config('grouping-history-len4', {'ab', 'alt', 'altdup'}, {'group_ci', 'group', 'optional', 'mul', 'add', 'match'}, 4, 4),
                 heap_config('alias-cache-len5', {'a', 'empty', 'dollar'}, {'concat', 'exactly', 'at_most', 'mul', 'compile', 'get_compiled', 'match'}, 4, 5),
                 heap_config('classes-len4', {'from', 'between', 'a'}, {'or', 'invert', 'concat', 'optional', 'compile'}, 4, 4),
                 heap_config('assertions-len4', {'a', 'anchor', 'empty'}, {'followed_by', 'not_preceded_by', 'match_at_line_start', 'enclose', 'one_or_more', 'match'}, 4, 4)]
-    return [heap_config('pre-ops-len5', {'a', 'ab', 'empty', 'alt', 'dollar'},
+    return [heap_config('grouping-history-len5', {'ab', 'alt', 'altdup', 'a'}, {'group_ci', 'group', 'optional', 'mul', 'add', 'exactly', 'match', 'compile'}, 5, 5),
+            heap_config('pre-ops-len5', {'a', 'ab', 'empty', 'alt', 'dollar'},
                         {'concat', 'add', 'either', 'optional', 'exactly', 'capture', 'group', 'compile', 'match'}, 5, 5),
             heap_config('alias-cache-len6', {'a', 'empty', 'dollar'}, {'concat', 'exactly', 'at_most', 'mul', 'compile', 'get_compiled', 'match'}, 4, 6),
             heap_config('classes-len5', {'from', 'between', 'a'}, {'or', 'invert', 'concat', 'optional', 'compile', 'match'}, 5, 5),
